@@ -33,6 +33,9 @@ enum Func {
     CorruptHalf,
     /// seed-derived values
     Random,
+    /// seed-derived values, but zero (0) / one (1) on the first 1/k of the domain - the first member of every
+    /// first-layer row
+    FirstColumn(u8),
 }
 
 fn eval_func<E: Elt>(cfg: &Cfg, f: &Func, seed: u64) -> Vec<El>
@@ -65,6 +68,7 @@ where
         },
         Func::CorruptHalf => xs.iter().enumerate().map(|(i, x)| if i % 2 == 0 { low_eval(*x) } else { ctx.add(&low_eval(*x), &[i as u128 + 1, 0, 0]) }).collect(),
         Func::Random => (0..n).map(|_| rand_el(&mut rng, &ctx)).collect(),
+        Func::FirstColumn(c) => (0..n).map(|i| if i < n / cfg.k { [*c as u128, 0, 0] } else { rand_el(&mut rng, &ctx) }).collect(),
     }
 }
 
@@ -79,7 +83,7 @@ fn is_low_degree(f: &Func, cfg: &Cfg) -> bool {
 fn funcs(cfg: &Cfg, thorough: bool) -> Vec<Func> {
     let n = cfg.n;
     let d = cfg.max_poly_degree();
-    let mut v = vec![Func::LowDegree, Func::Random, Func::CorruptHalf, Func::Monomial(0), Func::Monomial(d)];
+    let mut v = vec![Func::LowDegree, Func::Random, Func::CorruptHalf, Func::Monomial(0), Func::Monomial(d), Func::FirstColumn(0), Func::FirstColumn(1)];
     // every degree above the bound
     for j in d + 1..n {
         if (thorough && n <= 64) || n <= 32 || j <= d + 4 || j >= n - 2 || j % 7 == 0 {
@@ -112,6 +116,9 @@ fn strategies(cfg: &Cfg) -> Vec<Strategy> {
         }
     }
     if l >= 1 {
+        // layers after the first are not folded at all: constant 0 / constant 1, with the matching remainder
+        v.push(Strategy::ConstantTail(0));
+        v.push(Strategy::ConstantTail(1));
         v.push(Strategy::OmitLastLayer);
         for e in [0u8, 1, 62, 63] {
             v.push(Strategy::ForgedFirstLayer(e));
@@ -284,6 +291,7 @@ fn strat_class(s: &Strategy) -> &'static str {
         Strategy::OmitLastLayer => "omitted layer",
         Strategy::DuplicateLayer => "duplicated layer",
         Strategy::SwapLayers => "swapped layers",
+        Strategy::ConstantTail(_) => "constant later layers instead of folded ones",
         Strategy::ForgedFirstLayer(_) => "first-layer rows forged after seeing the queries (declared partition counts 1, 2, 2^62, 2^63)",
     }
 }
@@ -293,7 +301,7 @@ fn main() {
     match args.prop.clone().as_str() {
         "C05" => {
             let run = Run::new(args, "exploration");
-            run.rule("stand-alone FRI: configurations (domain 16,32 quick / 16..128 thorough) x folding {2,4,8,16} x blowup {2,4,8} x remainder degree {0,1,3,7} with a well-formed schedule; functions: every monomial above the degree bound, the bound itself, a low-degree polynomial corrupted at every single point / on a lattice of pairs / on half the domain, a seeded random function; adversary strategies: honest, full remainder, remainder interpolated after seeing the queries, tampered opened value per layer, first-layer rows forged after seeing the queries (other values at the queried positions, an un-queried member of each row adjusted to keep the fold) under declared partition counts {1,2,2^62,2^63}, tampered committed value per layer, wrong folding challenge per layer, omitted / duplicated / swapped layers; positions: ALL position lists of size 1 and 2 (all subsets; a third of the pairs for n = 128) plus lists with repeats; functions and pairs are complete up to n = 32 (quick) / n = 64 (thorough, pair lattice of corruptions coarser above 32) and thinned as stated for the largest domain; largest domain per (field, hasher) instance: 32/16/16 quick, 128/32/64/16/16 thorough; for every (function, strategy, positions) the real FriVerifier must answer Ok exactly when the reference verifier written from the protocol description accepts; a case = (configuration, function, strategy), non-trivial position sets counted individually; binding of the transcript: for every well-formed schedule the real prover's proof is verified with each commitment replaced (must refuse) and the coin after FriVerifier::new must depend on every commitment the verifier accepted, also when the proof carries one layer and one commitment more than the options define; the honest strategy's proof is compared byte for byte with the real FriProver's (trace conformance of the prover model)");
+            run.rule("stand-alone FRI: configurations (domain 16,32 quick / 16..128 thorough) x folding {2,4,8,16} x blowup {2,4,8} x remainder degree {0,1,3,7} with a well-formed schedule; functions: every monomial above the degree bound, the bound itself, a low-degree polynomial corrupted at every single point / on a lattice of pairs / on half the domain, a seeded random function, seeded functions that are 0 / 1 on the first 1/k of the domain; adversary strategies: constant (0 / 1) later layers with the matching remainder instead of folded ones, honest, full remainder, remainder interpolated after seeing the queries, tampered opened value per layer, first-layer rows forged after seeing the queries (other values at the queried positions, an un-queried member of each row adjusted to keep the fold) under declared partition counts {1,2,2^62,2^63}, tampered committed value per layer, wrong folding challenge per layer, omitted / duplicated / swapped layers; positions: ALL position lists of size 1 and 2 (all subsets; a third of the pairs for n = 128) plus lists with repeats; functions and pairs are complete up to n = 32 (quick) / n = 64 (thorough, pair lattice of corruptions coarser above 32) and thinned as stated for the largest domain; largest domain per (field, hasher) instance: 32/16/16 quick, 128/32/64/16/16 thorough; for every (function, strategy, positions) the real FriVerifier must answer Ok exactly when the reference verifier written from the protocol description accepts; a case = (configuration, function, strategy), non-trivial position sets counted individually; binding of the transcript: for every well-formed schedule the real prover's proof is verified with each commitment replaced (must refuse) and the coin after FriVerifier::new must depend on every commitment the verifier accepted, also when the proof carries one layer and one commitment more than the options define; the honest strategy's proof is compared byte for byte with the real FriProver's (trace conformance of the prover model)");
             run.assume("the public coin and the hashers are correct (C19, C11); Merkle openings are sound (C10); the reference verifier sees the adversary's committed layers, so 'authentic opening' is decided by equality with the committed rows");
             let mut subs = vec![];
             let quick = !run.tier().is_thorough();
